@@ -183,12 +183,12 @@ func main() {
 // minutes, or depth-3 expression trees that did not finish in 45 minutes).
 // Only bounds that ran clean are registered, so for these the thorough command
 // explores the same configurations as the quick one.
-var thoroughAsQuick = map[string]bool{"C09": true, "C10": true, "C12": true, "C14": true, "C15": true}
+var thoroughAsQuick = map[string]bool{"C09": true, "C14": true, "C15": true}
 
 func run(spec *PropSpec, st *interp.Stage, tier string, seed int, only string, workers int, verbose, noReplay bool, t0 time.Time) int {
 	id := spec.ID
 	jobTier := tier
-	if tier == "thorough" && thoroughAsQuick[id] {
+	if tier == "thorough" && thoroughAsQuick[id] && os.Getenv("VERIF_DEEP") == "" {
 		jobTier = "quick"
 	}
 	jobs := spec.Jobs(jobTier)
